@@ -131,9 +131,9 @@ class BasePoller(BaseComponent):
         return fd in self._write
 
     def discard(self, fd):
-        if fd in self._read:
+        while fd in self._read:
             self._read.remove(fd)
-        if fd in self._write:
+        while fd in self._write:
             self._write.remove(fd)
         if fd in self._targets:
             del self._targets[fd]
